@@ -16,7 +16,7 @@ RULE = ("histories of ~18 steps over 1-3 proxies and 1-5 concurrently open strea
         "{0,5} x ITER_STREAM_LINGER {0,3} x both server types. distinct = (history hash, step); non-trivial = the step concerns an open stream")
 ASSUMPTIONS = ["the virtual clock starts at 1e9 (a linger stamp of 0 means 'none' in Pyro's code)", "after every client-side disconnect / oneway close the harness waits for the server-side event (10 s watchdog, expiry = inconclusive)",
                "a stream whose deadline has passed may be forgotten at any time until the next explicit housekeeping step, after which it must be gone"]
-REQUIRED_REACH = ["items_ok", "stopiteration_ok", "generator_exception_ok", "forgotten_ok", "reconnect_continues", "linger_expired", "lifetime_expired", "table_checked", "streaming_disabled_ok", "racing_reconnects", "server_ended_connections", "housekeeping_during_fetch", "histories_under_one_correlation_id", "concurrent_streams_checked", "slow_item_streams_checked"]
+REQUIRED_REACH = ["items_ok", "stopiteration_ok", "generator_exception_ok", "forgotten_ok", "reconnect_continues", "linger_expired", "lifetime_expired", "table_checked", "streaming_disabled_ok", "racing_reconnects", "server_ended_connections", "housekeeping_during_fetch", "histories_under_one_correlation_id", "concurrent_streams_checked", "slow_item_streams_checked", "natural_housekeeping_ok"]
 SHARD_TIMEOUT = {"quick": 240, "thorough": 3000}
 
 
@@ -517,6 +517,59 @@ def slow_item_phase(fx, rec, r, cfg, n):
         real_time.sleep(0.55)   # the slow item finishes at the server before the next stream starts
 
 
+def natural_housekeeping_phase(fx, vclock, rec, r, cfg, n):
+    """multiplex server, nobody calls the housekeeping by hand: the daemon's own request loop has to do it while it is busy serving other
+    clients. A stream whose lifetime (or linger period) is over is gone as soon as the loop has served a few more requests."""
+    P = fx.P
+    d = fx.daemon
+    for k in range(n):
+        mode = "lifetime" if cfg["lifetime"] else "linger"
+        key = "nat-%d-%d" % (id(rec) % 1000, k)
+        SPECS[key] = ([[key, i] for i in range(6)], False, r.choice(["listiter", "iterobj", "gen"]))
+        pay = {"natural_housekeeping": True, "cfg": cfg, "mode": mode}
+        rec.case(("natural-housekeeping", repr(sorted(cfg.items())), mode, k), nontrivial=True, sample=pay if k == 0 else None)
+        p = fx.proxy("src", serializer=cfg["serializer"], timeout=10.0)
+        q = fx.proxy("src", serializer=cfg["serializer"], timeout=10.0)
+        it = None
+        try:
+            q.ping()
+            it = p.open(key)
+            got = [next(it), next(it)]
+            before = set(d.streaming_responses)
+            if mode == "lifetime":
+                vclock.now += cfg["lifetime"] + 1.0
+            else:
+                p._pyroRelease()
+                fx.wait_until(lambda: all(info[0] is None for info in list(d.streaming_responses.values())), 5.0)     # the disconnect has been handled
+                vclock.now += cfg["linger"] + 1.0
+            for _ in range(4):
+                q.ping()            # other clients keep the loop busy: it never sits idle for POLLTIMEOUT
+            held = set(d.streaming_responses) & before
+            if held:
+                rec.violation("expired-stream-still-held-under-traffic", "multiplex server, %s of %s s over (clock advanced), 4 requests of another client served since: the daemon's own loop "
+                              "still holds the stream (housekeeping is its job, nobody else calls it)" % (mode, cfg[mode]), pay)
+                return
+            try:
+                x = next(it)
+                rec.violation("expired-stream-still-delivers", "multiplex server, %s over and other requests served since: the client still received %r" % (mode, x), pay)
+                return
+            except (P.errors.PyroError, P.errors.CommunicationError, StopIteration) as x:
+                if isinstance(x, StopIteration):
+                    rec.violation("expired-stream-still-delivers", "expired stream reported a normal end", pay)
+                    return
+            rec.count("natural_housekeeping_ok")
+        except Exception as x:
+            rec.inconc("natural housekeeping phase failed in the harness: %r" % (x,))
+        finally:
+            try:
+                if it is not None:
+                    it.proxy = None
+            except Exception:
+                pass
+            p._pyroRelease()
+            q._pyroRelease()
+
+
 def concurrent_phase(fx, rec, r, cfg):
     """several clients open, read and abandon streams at the same time (thread server: their connections are served, and their disconnects
     handled, by different worker threads at once; seeded yield injection in server.py): nobody's live stream may suffer from somebody else's
@@ -617,6 +670,8 @@ def run_shard(shard, rec):
                 if rec.should_stop(8):
                     break
                 concurrent_phase(fx, rec, r, cfg)
+        if shard["servertype"] == "multiplex" and shard["streaming"] and bool(shard["lifetime"]) != bool(shard["linger"]):
+            natural_housekeeping_phase(fx, vclock, rec, r, cfg, 3 if rec.tier == "quick" else 20)
         if shard["streaming"] and shard["linger"] and not shard["lifetime"]:
             slow_item_phase(fx, rec, r, cfg, 2 if rec.tier == "quick" else 12)
         for kind, text in fixture.take_faults():
@@ -637,6 +692,9 @@ def replay(payload, rec):
                          ITER_STREAM_LINGER=float(cfg["linger"]), THREADPOOL_SIZE=20)
     try:
         fx.register(make_service(P), "src")
+        if payload.get("natural_housekeeping"):
+            natural_housekeeping_phase(fx, vclock, rec, gen.rng(0, "replay"), cfg, 10)
+            return
         if payload.get("slow_item"):
             slow_item_phase(fx, rec, gen.rng(0, "replay"), cfg, 12)
             return
